@@ -30,7 +30,8 @@ Also decided (necessary conditions found clause by clause):
          family negotiates like the base one;
   R09.c  to_html / to_xml are the methods each class of the family *resolves* to (mixins outside the family included); a
          to_escaped_dict() of a subclass obeys the same rule (or extends the inherited mapping with escaped values); placeholders of
-         the constant templates never stand in a tag outside quotes.
+         the constant templates never stand in a tag outside quotes; the folded template of to_xml, placeholders replaced by text,
+         is one well-formed XML element (xml.etree on a constant of the source).
 Declined: well-formedness of produced bytes, Accept negotiation inside werkzeug, JSON parseability.
 
 Constructs are located by role: values are followed through single-assignment locals (``local_value``), through
@@ -879,6 +880,45 @@ def check_attribute_quoting(rep, repo, fam):
         raise AnalysisError('markup templates of to_html / to_xml not found (%d)' % n)
 
 
+def check_xml_template(rep, repo, fam):
+    """"XML bodies are well formed" has one part that is a property of a constant: the template to_xml fills.  With every
+    placeholder replaced by plain text the folded template must parse as one XML element (escaped values are character data:
+    they cannot change that)."""
+    import string
+    import xml.etree.ElementTree as ET
+    n = 0
+    for m, servers in markup_methods(repo, fam):
+        if m.name != 'to_xml':
+            continue
+        for c in walk_body(m.node):
+            if not (isinstance(c, ast.Call) and isinstance(c.func, ast.Attribute) and c.func.attr in ('format', 'format_map')) or inside_constant(repo, m, c):
+                continue
+            tm = expand_expr(m, c.func.value, _use_stmt(m, c))
+            try:
+                text = fold_in_function(repo, m, tm)
+            except Unfoldable:
+                text = None
+            if not isinstance(text, str):
+                try:
+                    text = fold_in_function(repo, m, c.func.value)
+                except Unfoldable:
+                    continue
+            if not isinstance(text, str):
+                continue
+            n += 1
+            try:
+                filled = ''.join(lit + ('x' if field is not None else '') for lit, field, spec, conv in string.Formatter().parse(text))
+                ET.fromstring(filled)
+                ok, why = True, ''
+            except (ValueError, ET.ParseError) as e:
+                ok, why = False, str(e)
+            rep.check('R09.c', fkey(m, 'template is one XML element'), ok, 'the XML template is well formed' if ok else
+                      'the template %s.to_xml fills is not a well-formed XML element (%s): every XML error body is rejected by an XML parser' %
+                      (m.cls.name if isinstance(m.cls, ClassInfo) else '?', why), m.mod, c)
+    if not n:
+        rep.decline('well-formedness of the XML template: the template of to_xml is not a constant of the source')
+
+
 def _template_name(repo, mod, fi, render_call, recv=None):
     """Folded first argument of CONTEXTUAL_ENV.render(name, ctx); ``self.attr`` is looked up on the class of the
     receiver ``recv`` (default: the class defining the method) through its bases -- a class attribute that no method
@@ -1278,6 +1318,7 @@ def run(rep):
                'field; R09.d debug templates auto-escape; R09.e JSON carries the four fields')
     rep.decline('well-formedness of produced XML/HTML bytes, werkzeug Accept negotiation, JSON parseability')
     rep.assume('html.escape(s, True) escapes & < > " \' ; ashes filter semantics as read from the pinned source')
+    rep.assume('xml.etree.ElementTree accepts exactly the well-formed documents (used on the constant XML template only)')
     rep.rule('R09.a', 'class codes vs http.HTTPStatus; hierarchy; uniqueness; status plumbing (def-use order of self.code and of the fields rendered in the constructor)')
     rep.rule('R09.b', 'MIME_SUPPORT_MAP exhaustiveness; one (format, mimetype) pair feeds body and header')
     rep.rule('R09.c', 'taint: instance fields reach HTML/XML templates only through html_escape(x, True)')
@@ -1849,6 +1890,7 @@ def rule_c(rep, repo, err, base, fam):
             _guarded(rep, check_escaped_dict, rep, repo, err, base, m)
     _guarded(rep, check_markup_sinks, rep, repo, err, fam)
     _guarded(rep, check_attribute_quoting, rep, repo, fam)
+    _guarded(rep, check_xml_template, rep, repo, fam)
     if check_template_constancy(rep, 'R09.c') < 3:
         raise AnalysisError('format sinks in the to_* serialisers not found')
     check_escape_total(rep, 'R09.c')
